@@ -255,3 +255,64 @@ func (w *World) countKeys() { w.Stat[StKeysCalls]++ }
 
 //go:norace
 func (w *World) countPermuted() { w.Stat[StKeysPermuted]++ }
+
+// MapIter replaces *reflect.MapIter (returned by reflect.Value.MapRange): it walks the keys in the
+// order the world dictates.
+type MapIter struct {
+	m    reflect.Value
+	keys []reflect.Value
+	i    int
+}
+
+// MapRange replaces reflect.Value.MapRange.
+func MapRange(v reflect.Value) *MapIter {
+	return &MapIter{m: v, keys: MapKeys(v), i: -1}
+}
+
+func (it *MapIter) Next() bool {
+	for {
+		it.i++
+		if it.i >= len(it.keys) {
+			return false
+		}
+		if it.m.MapIndex(it.keys[it.i]).IsValid() { // skip entries deleted during iteration, as Go does
+			return true
+		}
+	}
+}
+func (it *MapIter) Key() reflect.Value   { return it.keys[it.i] }
+func (it *MapIter) Value() reflect.Value { return it.m.MapIndex(it.keys[it.i]) }
+func (it *MapIter) Reset(v reflect.Value) {
+	it.m, it.keys, it.i = v, MapKeys(v), -1
+}
+
+// MapsKeys / MapsValues / MapsAll replace maps.Keys / maps.Values / maps.All (iterators).
+func MapsKeys[M ~map[K]V, K comparable, V any](m M) func(yield func(K) bool) {
+	return func(yield func(K) bool) {
+		for _, k := range Keys(m) {
+			if _, ok := m[k]; ok && !yield(k) {
+				return
+			}
+		}
+	}
+}
+
+func MapsValues[M ~map[K]V, K comparable, V any](m M) func(yield func(V) bool) {
+	return func(yield func(V) bool) {
+		for _, k := range Keys(m) {
+			if v, ok := m[k]; ok && !yield(v) {
+				return
+			}
+		}
+	}
+}
+
+func MapsAll[M ~map[K]V, K comparable, V any](m M) func(yield func(K, V) bool) {
+	return func(yield func(K, V) bool) {
+		for _, k := range Keys(m) {
+			if v, ok := m[k]; ok && !yield(k, v) {
+				return
+			}
+		}
+	}
+}
